@@ -799,12 +799,15 @@ struct Outcome {
 fn classify_model(v0: Viol, op: &Op) -> Viol {
     // a structural mismatch with the model is attributed to the operation that caused it
     if v0.props == vec!["MODEL"] {
-        let p: Vec<&'static str> = match op {
+        let mut p: Vec<&'static str> = match op {
             Op::Remove(_) | Op::RemoveSubtree(_) | Op::Cycle(..) => vec!["C04"],
             Op::New => vec!["C07", "C08"],
             Op::Clear => vec!["C13"],
             _ => vec!["C03"],
         };
+        // internal marker: once a structural mismatch has been witnessed, later sequences keep running past
+        // such mismatches (the iterator oracles compare against the arena's own links, not the model)
+        p.push("MODEL");
         Viol { props: p, msg: format!("after {}: {}", op_str(op), v0.msg) }
     } else {
         Viol { props: v0.props, msg: format!("after {}: {}", op_str(op), v0.msg) }
@@ -1089,6 +1092,9 @@ fn main() {
     }
     let mut parts = vec![];
     for (p, (seq, msg)) in &found {
+        if *p == "MODEL" {
+            continue;
+        }
         parts.push(format!("{{\"props\":[{:?}],\"ops\":{:?},\"msg\":{:?}}}", p, seq, msg));
     }
     println!("{{\"violations\":[{}],\"sequences\":{},\"operations\":{},\"hang\":false}}", parts.join(","), nseq, nops);
